@@ -275,6 +275,11 @@ impl SortableStrVec {
         let offset = self.arena.len();
         let length = s.len();
 
+        // The packed entry has a 20-bit length field (see CompactEntry::new)
+        if length > CompactEntry::MAX_LENGTH {
+            return Err(ZiporaError::out_of_memory(length));
+        }
+
         // Fast path: Skip capacity check for typical cases
         // Only check when we're getting close to limits
         if offset > (CompactEntry::MAX_OFFSET >> 1) && offset + length > CompactEntry::MAX_OFFSET {
